@@ -7,7 +7,7 @@ use crate::{
 	db::{check::CheckDisplay, NodeChange, Operation, RcValue},
 	display::hex,
 	error::{try_io, Error, Result},
-	index::{Address, IndexTable, PlanOutcome, TableId as IndexTableId},
+	index::{Address, IndexTable, PlanOutcome, TableId as IndexTableId, MAX_INDEX_BITS},
 	log::{Log, LogAction, LogOverlays, LogQuery, LogReader, LogWriter},
 	multitree::{Children, NewNode, NodeAddress, NodeRef},
 	options::{ColumnOptions, Metadata, Options, DEFAULT_COMPRESSION_THRESHOLD},
@@ -1391,6 +1391,9 @@ impl HashColumn {
 						log::warn!( target: "parity-db", "Index {} is too old. Current is {}", record.table, tables.index.id);
 						return Err(Error::Corruption("Unexpected log index id".to_string()))
 					}
+					if record.table.index_bits() > MAX_INDEX_BITS {
+						return Err(Error::Corruption("Bad log index id".to_string()))
+					}
 					// Re-launch previously started reindex
 					// TODO: add explicit log records for reindexing events.
 					log::warn!(
@@ -1407,6 +1410,9 @@ impl HashColumn {
 				tables.value[record.table.size_tier() as usize].validate_plan(record.index, log)?;
 			},
 			LogAction::InsertRefCount(record) => {
+				if tables.ref_count.is_none() {
+					return Err(Error::Corruption("Unexpected log ref count action".to_string()))
+				}
 				if tables.get_ref_count().id == record.table {
 					tables.get_ref_count().validate_plan(record.index, log)?;
 				} else if let Some(table) = reindex
@@ -1421,6 +1427,9 @@ impl HashColumn {
 						// Insertion into a previously dropped ref count.
 						log::warn!( target: "parity-db", "Ref count {} is too old. Current is {}", record.table, tables.get_ref_count().id);
 						return Err(Error::Corruption("Unexpected log ref count id".to_string()))
+					}
+					if record.table.index_bits() > MAX_INDEX_BITS {
+						return Err(Error::Corruption("Bad log ref count id".to_string()))
 					}
 					// Re-launch previously started reindex
 					// TODO: add explicit log records for reindexing events.
